@@ -1044,6 +1044,114 @@ def multi_part(chk):
         chk.violation("multi-histories-setup", "most histories with several dependency files could not be set up", dict(examples=chk.notes.get("multi_histories_not_applicable", [])[:3]),
                       found_input=False, broken="harness: multi-deps histories")
 
+# ------------------------------------------------------------------ C11: a declared input whose NAME equals the relative spelling of a discovered path
+
+DECLARED_TMPL = """client:
+  name: basic
+
+targets:
+  "": ["<all>"]
+
+commands:
+  C1:
+    tool: shell
+    inputs: ["%s"]
+    outputs: ["<all>"]
+    description: CC
+    args: "cp deps.src out.d && echo x >> counter"
+    working-directory: "sub dir"
+    deps: out.d
+    deps-style: %s
+"""
+
+def declared_history(chk, llb, S, style, name, order, inproc, variant):
+    """Declared input `name` (relative to the build root) and a dependency file that lists the same spelling, meaning
+    <working-directory>/name: two different files.  Each is edited separately; each edit must re-execute the command."""
+    shutil.rmtree(S, ignore_errors=True)
+    cmdwd = os.path.join(S, "sub dir")
+    os.makedirs(cmdwd)
+    root_file, wd_file = os.path.join(S.encode(), name), os.path.join(cmdwd.encode(), name)
+    stamp = [10**18]
+    def write(path, content):
+        open(path, "wb").write(content); stamp[0] += 5 * 10**9; os.utime(path, ns=(stamp[0], stamp[0]))
+    write(root_file, b"r"); write(wd_file, b"w")
+    data = deps_file(style, name, variant)
+    open(os.path.join(cmdwd, "deps.src"), "wb").write(data)
+    bf = os.path.join(S, "build.llbuild")
+    open(bf, "w").write(DECLARED_TMPL % (name.decode(), style))
+    counter = os.path.join(cmdwd, "counter")
+    steps = ["initial", "none"] + order + ["none"]
+    log = []
+    rp = dict(declared=dict(style=style, name=repr(name), name_hex=hx(name), order=order, inprocess=inproc, variant=variant),
+              declared_input=repr(root_file), discovered_path=repr(wd_file), deps_file_repr=repr(data), working_directory="sub dir", sandbox=S, steps=steps, builds=log,
+              oracle="executions of the command counted through its side-effect file; every edit of the declared input AND every edit of the discovered file must re-execute it")
+    it = vlib.Interactive(sides(chk).deps) if inproc else None
+    try:
+        if it:
+            it.ask("open %s %s %s 0" % (hx(S.encode()), hx(bf.encode()), hx(os.path.join(S, "build.db").encode())))
+        want, size = 0, 1
+        for i, ev in enumerate(steps):
+            if ev in ("wd", "root"):
+                size += 1
+                write(wd_file if ev == "wd" else root_file, b"x" * size)
+            if ev != "none":
+                want += 1
+            if it:
+                f = dict(x.split("=", 1) for x in it.ask("build -").split(" "))
+                okb = f.get("ok") == "1"
+            else:
+                rc, out, err = vlib.sh([llb, "buildsystem", "build", "--serial", "--chdir", S, "-f", bf], timeout=60)
+                okb = rc == 0
+            n = count_lines(counter)
+            log.append(dict(build=i + 1, before={"wd": "edit of <working-directory>/" + name.decode("latin-1"), "root": "edit of the declared input " + name.decode("latin-1")}.get(ev, ev),
+                            ok=okb, executions_so_far=n, expected=want))
+            if not okb:
+                return ("declared-build-failed", "build %d failed" % (i + 1), rp)
+            if n < want:
+                if ev == "wd":
+                    return ("discovered-path-named-like-declared-input", "the command (working-directory 'sub dir', %s style) declares the input %r and reported reading %r through its dependency file "
+                            "(same spelling, a different file); after the edit of %r it did not re-execute" % (style, root_file, wd_file, wd_file), rp)
+                return ("declared-input-change-not-honoured", "the command did not re-execute after the edit of its declared input %r" % (root_file,), rp)
+            if n > want:
+                return ("spurious-reexecution", "the command re-executed although nothing changed (build %d)" % (i + 1), rp)
+    except RuntimeError as e:
+        rp["driver_error"] = str(e)[-1500:]
+        return ("inprocess-crash", "the in-process build driver died during a sequence of builds", rp)
+    finally:
+        if it:
+            it.close()
+    return (None, "", rp)
+
+def declared_part(chk):
+    base = os.path.join(sandbox(), "declared")
+    shutil.rmtree(base, ignore_errors=True)
+    os.makedirs(base)
+    llb = private_llbuild(base)
+    hist = []
+    orders = [["wd", "root", "wd"], ["root", "wd"], ["wd", "wd", "root"]]
+    i = 0
+    for style in (STYLES if chk.quick() else ALL_STYLES):
+        for name in ([b"config.h"] if chk.quick() else [b"config.h", b"h d", b"inc.h"]):
+            for inproc in (False, True):
+                for order in (orders[:1] if chk.quick() else orders):
+                    hist.append((style, name, order, inproc, i)); i += 1
+    builds = ok = 0
+    for k, (style, name, order, inproc, variant) in enumerate(hist):
+        S = os.path.join(base, "d%d" % k)
+        key, what, rp = declared_history(chk, llb, S, style, name, order, inproc, variant)
+        builds += len(rp["builds"])
+        chk.count(("declared", style, name, tuple(order), inproc))
+        if k == 0:
+            chk.cov["declared_input_sample"] = dict(history=rp["declared"], builds=[(b["before"], b["executions_so_far"]) for b in rp["builds"]])
+        if key:
+            chk.violation(key, what, rp, found_input=True, broken="c11 oracle (a change of a discovered path re-executes the command) with a declared input of the same spelling")
+        else:
+            ok += len(rp["builds"])
+            shutil.rmtree(S, ignore_errors=True)
+    chk.cov["declared_input_histories"] = len(hist)
+    chk.cov["declared_input_builds"] = builds
+    chk.cov["traces_validated_against_impl"] = chk.cov.get("traces_validated_against_impl", 0) + ok
+
 def private_llbuild(base):
     """a private copy of the freshly built llbuild: other checks may relink _work/b-hooks/bin/llbuild while the
     histories below run (the copy is taken under the lock that guards that build directory)"""
@@ -1300,6 +1408,7 @@ def run(chk):
     guarded(chk, "cli", cli_part)
     guarded(chk, "aborted", aborted_part)
     guarded(chk, "multi-deps", multi_part)
+    guarded(chk, "declared-input", declared_part)
     guarded(chk, "inprocess", inprocess_part)
     guarded(chk, "byte-strings", deps_part, report=False)
     report_disagreements(chk, "parsers")
@@ -1315,7 +1424,7 @@ def run(chk):
                       rule="parsers: corpus, all strings over 7-8 (makefile) / 4-6 (dependency-info) special bytes up to length 5-7, every truncation of valid files, grammar mutations, random bytes, "
                            "writer outputs for path lists over an alphabet with every special byte (3 separators, 1-3 rules), malformed families; each through the normal build, the ASan build and the model. "
                            "glue: words over '/.a' up to length 4 x 11 working directories. cli: style x path spelling x (relative|absolute) x (with|without working-directory) x (modify|delete|create|none). "
-                           "multi: commands with 2-3 dependency files - the path named only in the 1st/2nd/3rd file changes (cli and in-process); a malformed / missing file in each position must fail the build, keep the dependent from running and be retried. aborted: a build that ends unsuccessfully (cycle elsewhere / unrelated failing command) after the command recorded the path, then repair + change + new process over the same database. in-process: one BuildSystemFrontend (deps_driver.cpp) used for 7-9 builds with modify / delete / create of the discovered path in between, 3 styles x spellings x modes x with/without database. "
+                           "declared: a working-directory command whose declared input has the same spelling as a discovered relative path (two files), each edited separately (cli and in-process). multi: commands with 2-3 dependency files - the path named only in the 1st/2nd/3rd file changes (cli and in-process); a malformed / missing file in each position must fail the build, keep the dependent from running and be retried. aborted: a build that ends unsuccessfully (cycle elsewhere / unrelated failing command) after the command recorded the path, then repair + change + new process over the same database. in-process: one BuildSystemFrontend (deps_driver.cpp) used for 7-9 builds with modify / delete / create of the discovered path in between, 3 styles x spellings x modes x with/without database. "
                            "non-trivial = the implementation emits at least one event (parsers), relative word (glue), history with a change (cli, in-process); distinct by request / scenario",
                       trusted=["hand-written models coq/Parse/MakeDeps.v, DepInfo.v, DepsGlue.v tied by correspondence", "harness/cpp/parse_driver.cpp", "harness/cpp/deps_driver.cpp",
                                "extraction (ExtrOcamlBasic) + ocaml/vmodel_parse.ml", "clang-14 AddressSanitizer/UBSan as the observer of reads outside the buffer"])
@@ -1338,6 +1447,14 @@ def replay(chk, rp):
         print("scenario replayed: %s" % (("FAILS: " + key + " - " + what) if key else "passes"))
         for b in r2["builds"]:
             print("  ", b["step"], "exit", b["exit"], "executions", b["executions_so_far"])
+    de = rp.get("declared")
+    if de:
+        base = sandbox() + "-replay"
+        os.makedirs(base, exist_ok=True)
+        key, what, r2 = declared_history(chk, private_llbuild(base), os.path.join(base, "declared"), de["style"], unhx(de["name_hex"]), de["order"], de["inprocess"], de["variant"])
+        print("declared-input history replayed: %s" % (("FAILS: " + key + " - " + what) if key else "passes"))
+        for b in r2["builds"]:
+            print("  ", b)
     mu = rp.get("multi")
     if mu:
         base = sandbox() + "-replay"
